@@ -1,7 +1,7 @@
 (** Pinned statements of the C08 property theorems: compiled on every check, so a theorem cannot be
     weakened silently. *)
 From V Require Import Base.Util Gql.Ast Peg.Peg Gen.C07_grammar_gen C07.Builder C07.Model.
-From V Require Import C08.Model C08.Spec C08.SiteType Gen.C08_sites_gen C08.Sites C08.ProofsRender C08.ProofsEscape C08.Shape C08.ProofsShape C08.ProofsMerge C08.ImportsCost C08.ProofsVisitor C08.Proofs C08.Properties.
+From V Require Import C08.Model C08.Spec C08.SiteType Gen.C08_sites_gen C08.Sites C08.ProofsRender C08.ProofsEscape C08.Shape C08.ProofsShape C08.ProofsMerge C08.ImportsCost C08.ProofsVisitor C08.ProofsCount C08.Proofs C08.Properties.
 From V Require C07.Fuel C11.Properties C12.Properties C13.Properties.
 Local Open Scope N_scope.
 
@@ -45,7 +45,13 @@ Check (C08_visitor_fragments_defined : forall S D,
   (forall o, In o (C03.Spec.doc_ops D) -> spreads_ok (C01.Model.frag_defs D) (selset_sels (op_sel o)) = true) /\
   (forall sels, spreads_ok (C01.Model.frag_defs D) sels = true ->
      forall fuel st, C01.Model.visit_vars fuel (C01.Model.frag_defs D) sels st <> C01.Model.Err C01.Model.ETypeSystem)).
+Check (C08_subscription_count_terminates : forall D o,
+  In (DOp o) (od_defs D) ->
+  snd (crk_c (C03.Model.doc_fuel D) (C03.Model.doc_frags D) [] (op_sel o) []) = false /\
+  fst (crk_c (C03.Model.doc_fuel D) (C03.Model.doc_frags D) [] (op_sel o) []) =
+  C03.Model.collect_response_keys (C03.Model.doc_fuel D) (C03.Model.doc_frags D) [] (op_sel o) []).
 
+Print Assumptions C08_subscription_count_terminates.
 Print Assumptions C08_visitor_fragments_defined.
 Print Assumptions C08_render_total.
 Print Assumptions C08_skip_chars_total.
